@@ -1575,7 +1575,7 @@ impl Vm {
         ExecutionSignal::Ok
       },
       None => self.runtime_error_from_str(
-        self.builtin.errors.runtime,
+        self.builtin.errors.property,
         &format!("Undefined property {} on class {}.", name, class.name()),
       ),
     }
